@@ -510,34 +510,36 @@ inductive SysTx where
   | unlock (nonce : Nat) (id : Nat) (recipient token : Bytes) (amount : Int)
   deriving DecidableEq, Repr, Inhabited
 
+/-- give consecutive nonces `n, n+1, …` to a list of system transactions awaiting their nonce -/
+def number : Nat → List (Nat → SysTx) → List SysTx
+  | _, [] => []
+  | n, f :: fs => f n :: number (n + 1) fs
+
 /-- `DequeueBitcoinModuleTx`: ≤1 block hash, ≤8 deposits, ≤8 paid + refunds together. -/
 def dequeue (s : State) : Outcome (State × List SysTx) :=
   let q := s.queue
-  let n0 := s.nonce
-  -- block hash
-  let r1 : Outcome (Queue × List SysTx × Nat) :=
+  let hbPart : Outcome (List (Nat → SysTx)) :=
     if q.blockNumber < s.tip then
-      let bn := q.blockNumber + 1
-      match nlookup s.hashes bn with
+      match nlookup s.hashes (q.blockNumber + 1) with
       | none => .err "not-found"
-      | some h => .ok ({ q with blockNumber := bn }, [SysTx.newBlock n0 h], n0 + 1)
-    else .ok (q, [], n0)
-  match r1 with
+      | some h => .ok [fun n => SysTx.newBlock n h]
+    else .ok []
+  match hbPart with
   | .err e => .err e
   | .panic e => .panic e
-  | .ok (q, txs, n1) =>
-    let nd := min q.deposits.length 8
-    let dtx := (q.deposits.take nd).zipIdx.map (fun (d, i) => SysTx.deposit (n1 + i) d)
-    let n2 := n1 + nd
-    let np := min q.paid.length 8
-    let ptx := (q.paid.take np).zipIdx.map (fun (p, i) => SysTx.paid (n2 + i) p.1 p.2)
-    let n3 := n2 + np
-    let nr := min q.rejected.length (8 - np)
-    let rtx := (q.rejected.take nr).zipIdx.map (fun (id, i) => SysTx.cancel2 (n3 + i) id)
-    let n4 := n3 + nr
-    let all := txs ++ dtx ++ ptx ++ rtx
-    let q' := { q with deposits := q.deposits.drop nd, paid := q.paid.drop np, rejected := q.rejected.drop nr }
-    if all.isEmpty then .ok (s, []) else .ok ({ s with queue := q', nonce := n4 % two64 }, all)
+  | .ok hb =>
+    let deps := q.deposits.take 8
+    let paid := q.paid.take 8
+    let rej := q.rejected.take (8 - paid.length)
+    let items : List (Nat → SysTx) :=
+      hb ++ deps.map (fun d n => SysTx.deposit n d) ++ paid.map (fun p n => SysTx.paid n p.1 p.2) ++
+        rej.map (fun id n => SysTx.cancel2 n id)
+    if items.isEmpty then .ok (s, [])
+    else
+      .ok ({ s with queue := { blockNumber := q.blockNumber + hb.length, deposits := q.deposits.drop deps.length,
+                               paid := q.paid.drop paid.length, rejected := q.rejected.drop rej.length },
+                    nonce := (s.nonce + items.length) % two64 },
+           number s.nonce items)
 
 structure WithdrawReq where
   id : Nat
